@@ -75,6 +75,26 @@ fn fnv(s: &str) -> u64 {
 
 /// One correspondence stream: `<name>.ops` (requests for the Lean driver), `<name>.impl`
 /// (what the real code did, one line per request), `<name>.json` (report).
+// ---- "what is running right now": two lines in <out>/<stream>.current, rewritten before the real code is entered,
+// so that when the process running it does not come back (endless loop, runaway allocation, abort) the check can
+// name the concrete case instead of only "the harness died"
+thread_local! { static MARK: std::cell::RefCell<(Option<File>, [String; 2])> = std::cell::RefCell::new((None, [String::new(), String::new()])); }
+/// slot 0: the case, slot 1: the step inside it (cleared by a new slot-0 mark)
+pub fn mark(slot: usize, text: &str) {
+    use std::io::{Seek, SeekFrom};
+    MARK.with(|m| {
+        let mut m = m.borrow_mut();
+        m.1[slot] = text.chars().take(3000).collect();
+        if slot == 0 { m.1[1].clear(); }
+        let body = format!("{}\n{}\n", m.1[0], m.1[1]);
+        if let Some(f) = m.0.as_mut() {
+            let _ = f.seek(SeekFrom::Start(0));
+            let _ = f.write_all(body.as_bytes());
+            let _ = f.set_len(body.len() as u64);
+        }
+    });
+}
+
 pub struct Stream {
     pub name: String,
     ops: BufWriter<File>,
@@ -96,6 +116,7 @@ pub struct Stream {
 impl Stream {
     pub fn new(dir: &str, name: &str) -> Stream {
         std::fs::create_dir_all(dir).unwrap();
+        MARK.with(|m| m.borrow_mut().0 = File::create(format!("{}/{}.current", dir, name)).ok());
         Stream {
             name: name.to_string(),
             ops: BufWriter::with_capacity(1 << 20, File::create(format!("{}/{}.ops", dir, name)).unwrap()),
@@ -151,6 +172,7 @@ impl Stream {
     pub fn finish(mut self) {
         self.ops.flush().unwrap();
         self.imp.flush().unwrap();
+        mark(0, "");
         let mut f = File::create(format!("{}/{}.json", self.dir, self.name)).unwrap();
         let hist: Vec<String> = self.hist.iter().map(|(k, v)| format!("{}:{}", json_str(k), v)).collect();
         let notes: Vec<String> = self.notes.iter().map(|s| json_str(s)).collect();
